@@ -9,6 +9,25 @@ import pilio
 import progen
 
 
+def example_bundles(rng, n, kind=None):
+    """bundles built from the repository's own examples through the independent source reader (srcparse.py)"""
+    import os
+    import srcparse
+    ex = json.load(open(os.path.join(core.CORPUS, "examples.json")))
+    if kind:
+        ex = [e for e in ex if e[0].endswith("." + kind)]
+    rng.shuffle(ex)
+    out = []
+    for rel, args in ex[:n]:
+        root = os.path.join(core.REPO, "examples", os.path.dirname(rel))
+        entry = os.path.basename(rel).rsplit(".", 1)[0]
+        try:
+            out.append(("example:" + rel, srcparse.bundle_from_dir(root, entry, args)))
+        except Exception:   # an example the independent reader cannot read is skipped (none at the pinned commit)
+            continue
+    return out
+
+
 def stats_of_bundle(b, res):
     n_stmts = 0
     for key, ast in b.files.items():
